@@ -27,6 +27,12 @@ structure Inst where
   srcs : List (KGRange × Ckpt) := []
   /-- the operator's composite watermark (cluster mode; epoch after a deploy) -/
   wm : Nat := 0
+  /-- the instance whose directory this one was opened in (an operator that keeps running keeps its directory) -/
+  dir : Nat := 0
+  /-- the handles it was restored from -/
+  refs : List (Nat × Nat) := []
+  /-- restored from a handle whose document had been rewritten by a repositioned operator (open finding D72) -/
+  d72 : Bool := false
 
 structure Saved where
   inst : Nat
@@ -34,6 +40,11 @@ structure Saved where
   range : KGRange
   ck : Ckpt
   spec : List Entry
+  /-- the directory's `checkpoints` document was rewritten by an instance restored from OTHER handles: this entry now
+  holds the composite that instance had loaded (open finding D72; the D50 family) -/
+  d72 : Bool := false
+  /-- the document as recorded at its checkpoint (what the restoring instances read at deploy time) -/
+  orig : Option Ckpt := none
 
 structure St where
   insts : List Inst := []
@@ -89,7 +100,11 @@ def parseRun (s : String) : Run :=
     | _ => none
 
 def parseLevel (s : String) : List Tbl :=
-  if s == "e" || s == "" then [] else (s.splitOn "|").map fun t => ⟨0, parseRun t⟩
+  if s == "e" || s == "" then [] else (s.splitOn "|").map fun t =>
+    -- `<file number>~<entries>`
+    match t.splitOn "~" with
+    | [n, r] => ⟨natOr n, parseRun r⟩
+    | _ => ⟨0, parseRun t⟩
 
 def parseWal (s : String) : List WalEntry :=
   if s == "e" || s == "" then [] else
@@ -156,9 +171,22 @@ def d47Situation (i : Inst) (k : Bytes) : Bool :=
     i.srcs.any (fun (r, c) => !Keys.ownsKey r k && c.levels.flatten.any (fun t => t.run.any (fun e => e.key == k)))
 
 def kfGet (i : Inst) (k : Bytes) : Option String :=
-  if d37Situation i then some "D37" else if d47Situation i k then some "D47" else none
+  if i.d72 then some "D72" else if d37Situation i then some "D37" else if d47Situation i k then some "D47" else none
 
-def kfScan (i : Inst) : Option String := if d37Situation i then some "D37" else none
+def kfScan (i : Inst) : Option String := if i.d72 then some "D72" else if d37Situation i then some "D37" else none
+
+/-- `CheckpointList.Save` of instance `i`: the one `checkpoints` document of its directory is rewritten with the list the
+instance holds — the composite it loaded, under the id of the job checkpoint it was restored from, and its own new
+checkpoints. If the directory belongs to a source instance whose handle of that id the instance was NOT (only) restored
+from, that handle now resolves to the composite (D72). -/
+def rewriteDoc (st : St) (i : Inst) : St :=
+  match i.refs with
+  | [] => st
+  | (_, fromCid) :: _ =>
+    if i.refs == [(i.dir, fromCid)] then st else
+    let comp : Ckpt := compositeDoc (i.srcs.map (·.2))
+    { st with saved := st.saved.map fun s =>
+        if s.inst == i.dir && s.cid == fromCid && i.dir != i.id then { s with ck := comp, d72 := true } else s }
 
 
 /-! the operator's own stores over the instance: `KeyedStateStore.GetState/ApplyMutations`, `TimerStore.Put/GetEarliest` -/
@@ -209,39 +237,35 @@ def doCkpt (st : St) (id cid : String) (hint : List String) : St × String :=
       | some k => (st, "bad-ckpt " ++ toHex k)
       | none =>
         if i.fresh && !inFamily i.range c then (st, "ckpt-outside-theorem-family") else
-        ({ st with saved := ⟨i.id, natOr cid, i.range, c, i.spec⟩ :: st.saved }, joinWith " " hint)
+        let st := rewriteDoc st i
+        ({ st with saved := ⟨i.id, natOr cid, i.range, c, i.spec, false, some c⟩ :: st.saved }, joinWith " " hint)
     | some _, _ => (st, "ckpt-unreadable")
     | none, _ => (st, "no-instance")
 
-def step (st : St) (ws : List String) : St × String :=
-  let (op, hint) := splitHint ws
-  match op with
-  | ["assign", to, frm] => (st, showAssign (assignRanges (parseRanges to) (parseRanges frm)))
-  | ["assignold", to, frm] => (st, showAssign (assignRangesOld (parseRanges to) (parseRanges frm)))
-  | ["deploy", kgc, n, frm] =>
-    -- handles given to each new operator: positions in the recorded checkpoint list (`sliceu.Pick` of the assignment)
-    let a := assignRanges (KeySpace.ranges (natOr kgc) (natOr n)) (parseRanges frm)
-    (st, showAssign (a.map fun idx => pick (List.range (parseRanges frm).length) idx))
-  | ["assigncheck", _, _, _, _] => (st, "ok")   -- spec: C06.assign_exact / assign_complete evaluated on the implementation
-  | ["new", id, lo, hi, _, _] =>
-    (setInst st ⟨natOr id, ⟨natOr lo, natOr hi⟩, {}, [], true, [], 0⟩, "ok")
-  | ["put", id, k, v] =>
-    match findInst st (natOr id) with
-    | some i => (setInst st { i with s := write i.s (hexOr k) false (hexOr v), spec := ⟨hexOr k, 0, false, hexOr v⟩ :: i.spec }, "ok")
-    | none => (st, "no-instance")
-  | ["del", id, k] =>
-    match findInst st (natOr id) with
-    | some i => (setInst st { i with s := write i.s (hexOr k) true [], spec := ⟨hexOr k, 0, true, []⟩ :: i.spec }, "ok")
-    | none => (st, "no-instance")
-  | ["settle", id] => (st, if (findInst st (natOr id)).isSome then "ok" else "no-instance")
-  | ["cnew", first, kgc, m] =>
-    -- M real operators deployed together: operator j owns `ranges kgc m`[j] (Operator.HandleDeploy, C05)
-    let rs := KeySpace.ranges (natOr kgc) (natOr m)
-    let st' := (List.range rs.length).foldl (fun st j =>
-      setInst st ⟨natOr first + j, rs.getD j ⟨0, 0⟩, {}, [], true, [], 0⟩) st
-    (st', joinWith ";" (rs.map fun r => s!"{r.start},{r.stop}"))
-  | ["rot", id] => (st, if (findInst st (natOr id)).isSome then "ok" else "no-instance")
-  | ["cdeploy", first, kgc, n, cid, acks] =>
+/-- `open` / `openin`: `dkv.Open` of the recorded documents in the given handle order with the range's ownership (the
+directory the instance is opened in does not enter the state; that new table files never reuse a loaded table's name there is
+`C06.restored_table_ids_fresh`, observed by `freshnames`) -/
+def doOpen (st : St) (id lo hi hs : String) (dir : Option Nat := none) : St × String :=
+
+    let r : KGRange := ⟨natOr lo, natOr hi⟩
+    let own := Keys.ownsKey r
+    let handles := (hs.splitOn ",").map parseHandle
+    let found := handles.filterMap fun (a, b) => st.saved.find? (fun s => s.inst == a && s.cid == b)
+    if found.length != handles.length then (st, "no-handle") else
+    let s := openDB own (found.map (·.ck))
+    let spec := found.flatMap fun sv => sv.spec.filter (fun e => own e.key)
+    (setInst st ⟨natOr id, r, s, spec, false, found.map fun sv => (sv.range, sv.ck), 0, dir.getD (natOr id), handles,
+      found.any (·.d72)⟩, "ok")
+
+/-- `cdeploy`: real Assembly.Deploy: AssignRanges over the recorded checkpoint ranges, sliceu.Pick, Operator.HandleDeploy =
+dkv.Open of the picked handles in that order with the ownership of the operator's NEW position (whether the operator object is
+new or one that keeps running does not enter the state) -/
+def doCDeploy (st : St) (first kgc n cid acks : String) (hint : List String) (reuse : List String := []) : St × String :=
+    -- an operator that keeps running keeps its directory
+    let dirOf := fun (i : Nat) => match reuse[i]? with
+      | some r => if r == "-" then natOr first + i else natOr r
+      | none => natOr first + i
+
     -- real Assembly.Deploy: AssignRanges over the recorded (acknowledgement-ordered) checkpoint ranges, sliceu.Pick,
     -- Operator.HandleDeploy = dkv.Open of the picked handles in that order with the operator's ownership
     -- the order in which the snapshot store recorded the acknowledgements is the implementation's choice (any order is
@@ -258,22 +282,59 @@ def step (st : St) (ws : List String) : St × String :=
       let r := to.getD i ⟨0, 0⟩
       let own := Keys.ownsKey r
       let hs := Rescale.pick found (a.getD i [])
-      if hs.isEmpty then setInst st ⟨natOr first + i, r, {}, [], true, [], 0⟩ else
+      if hs.isEmpty then setInst st ⟨natOr first + i, r, {}, [], true, [], 0, dirOf i, [], false⟩ else
       let s := openDB own (hs.map (·.ck))
       let spec := hs.flatMap fun sv => sv.spec.filter (fun e => own e.key)
-      setInst st ⟨natOr first + i, r, s, spec, false, hs.map fun sv => (sv.range, sv.ck), 0⟩) st
+      setInst st ⟨natOr first + i, r, s, spec, false, hs.map (fun sv => (sv.range, sv.ck)), 0, dirOf i,
+        hs.map (fun sv => (sv.inst, sv.cid)), hs.any (·.d72)⟩) st
     (st', showAssign a ++ " order=" ++ joinWith "," (srcIds.map toString))
+
+def step (st : St) (ws : List String) : St × String :=
+  let (op, hint) := splitHint ws
+  match op with
+  | ["assign", to, frm] => (st, showAssign (assignRanges (parseRanges to) (parseRanges frm)))
+  | ["assignold", to, frm] => (st, showAssign (assignRangesOld (parseRanges to) (parseRanges frm)))
+  | ["deploy", kgc, n, frm] =>
+    -- handles given to each new operator: positions in the recorded checkpoint list (`sliceu.Pick` of the assignment)
+    let a := assignRanges (KeySpace.ranges (natOr kgc) (natOr n)) (parseRanges frm)
+    (st, showAssign (a.map fun idx => pick (List.range (parseRanges frm).length) idx))
+  | ["assigncheck", _, _, _, _] => (st, "ok")   -- spec: C06.assign_exact / assign_complete evaluated on the implementation
+  | ["new", id, lo, hi, _, _] =>
+    (setInst st ⟨natOr id, ⟨natOr lo, natOr hi⟩, {}, [], true, [], 0, natOr id, [], false⟩, "ok")
+  | ["put", id, k, v] =>
+    match findInst st (natOr id) with
+    | some i => (setInst st { i with s := write i.s (hexOr k) false (hexOr v), spec := ⟨hexOr k, 0, false, hexOr v⟩ :: i.spec }, "ok")
+    | none => (st, "no-instance")
+  | ["del", id, k] =>
+    match findInst st (natOr id) with
+    | some i => (setInst st { i with s := write i.s (hexOr k) true [], spec := ⟨hexOr k, 0, true, []⟩ :: i.spec }, "ok")
+    | none => (st, "no-instance")
+  | ["settle", id] => (st, if (findInst st (natOr id)).isSome then "ok" else "no-instance")
+  | ["cnew", first, kgc, m] =>
+    -- M real operators deployed together: operator j owns `ranges kgc m`[j] (Operator.HandleDeploy, C05)
+    let rs := KeySpace.ranges (natOr kgc) (natOr m)
+    let st' := (List.range rs.length).foldl (fun st j =>
+      setInst st ⟨natOr first + j, rs.getD j ⟨0, 0⟩, {}, [], true, [], 0, natOr first + j, [], false⟩) st
+    (st', joinWith ";" (rs.map fun r => s!"{r.start},{r.stop}"))
+  | ["rot", id] => (st, if (findInst st (natOr id)).isSome then "ok" else "no-instance")
+  | ["cdeploy", first, kgc, n, cid, acks] => doCDeploy st first kgc n cid acks hint
+  | ["cdeploy", first, kgc, n, cid, acks, reuse] => doCDeploy st first kgc n cid acks hint (reuse.splitOn ",")
   | ["ckpt", id, cid] => doCkpt st id cid hint
   | ["cckpt", id, cid] => doCkpt st id cid hint
-  | ["open", id, lo, hi, _, _, hs] =>
-    let r : KGRange := ⟨natOr lo, natOr hi⟩
-    let own := Keys.ownsKey r
-    let handles := (hs.splitOn ",").map parseHandle
-    let found := handles.filterMap fun (a, b) => st.saved.find? (fun s => s.inst == a && s.cid == b)
-    if found.length != handles.length then (st, "no-handle") else
-    let s := openDB own (found.map (·.ck))
-    let spec := found.flatMap fun sv => sv.spec.filter (fun e => own e.key)
-    (setInst st ⟨natOr id, r, s, spec, false, found.map fun sv => (sv.range, sv.ck), 0⟩, "ok")
+  | ["open", id, lo, hi, _, _, hs] => doOpen st id lo hi hs
+  | ["openin", id, lo, hi, _, _, hs, d] => doOpen st id lo hi hs (some (natOr d))
+  | ["freshnames", id] =>
+    -- `C06.restored_table_ids_fresh`: every table written after the restore is numbered at or above the model's `nextId`
+    -- (= above every table number of every handle), hence no live table's file is reused
+    match findInst st (natOr id) with
+    | some i =>
+      let expect := s!"ok first>={i.s.nextId}"
+      match hint with
+      | ["ok", f] =>
+        if f == "first=-" then (st, "ok first=-") else
+        if f.startsWith "first=" && i.s.nextId ≤ natOr (f.drop 6).toString then (st, "ok " ++ f) else (st, expect)
+      | _ => (st, expect)
+    | none => (st, "no-instance")
   | ["leak", id, _, hs] =>
     -- next checkpoint of the restored instance = its memtable (WAL) + level list: entries it does not own and that no
     -- source table held (`seq_above_loaded`: the replay only admits owned keys)
@@ -282,8 +343,9 @@ def step (st : St) (ws : List String) : St × String :=
       let handles := (hs.splitOn ",").map parseHandle
       let found := handles.filterMap fun (a, b) => st.saved.find? (fun s => s.inst == a && s.cid == b)
       if found.length != handles.length then (st, "no-handle") else
+      let st := rewriteDoc st i   -- `leak` takes the instance's next checkpoint: its directory's document is saved
       let tri := fun (e : Entry) => (e.key, e.del, e.val)
-      let inherited := found.flatMap fun sv => sv.ck.levels.flatten.flatMap fun t => t.run.map tri
+      let inherited := found.flatMap fun sv => (sv.orig.getD sv.ck).levels.flatten.flatMap fun t => t.run.map tri
       let mine := (i.s.mems.flatten ++ i.s.levels.flatten.flatMap (·.run)).map tri
       let extra := (mine.filter fun x => !Keys.ownsKey i.range x.1 && !inherited.contains x).eraseDups
       (st, if extra.isEmpty then "none" else
